@@ -250,7 +250,7 @@ PROFILES = {
                             dict(mock=2, seq=2, expect=8, call=2, call_live=6, release=4, dmock=3, mmock=3, dseq=3, obj=2,
                                  watch=3, unwatch=2, dobj=2, cpobj=0.5, mvobj=0.5, asobj=0.5, masobj=0.5, tracer=2,
                                  dtracer_any=2), nmock=3, nseq=3, prelude=('mock', 'seq')),
-    'reporters': Profile('reporters', [2, 3, 5, 9, 10, 12, 13, 30, 33, 50, 53, 11, 130, 132, 135, 138],
+    'reporters': Profile('reporters', [2, 3, 5, 9, 10, 12, 13, 30, 33, 50, 53, 11, 130, 132, 135, 138, 55, 15, 16, 134, 144, 142],
                          dict(mock=0.5, seq=0.5, expect=8, call=5, call_live=14, release=3, setrep=5, dmock=0.5, obj=0.7,
                               dobj=0.7), nmock=2, nseq=1, prelude=('mock', 'seq')),
     'trace': Profile('trace', [1, 2, 4, 15, 16, 50, 51, 55, 30, 40, 12, 9, 90, 91, 92, 130, 135, 134, 142, 143, 144, 142],
@@ -863,5 +863,20 @@ def exhaustive_forbid_seq():
                     segs.append(('xfs-%d-%d-%s-%s' % (fsh, k, pk[0] if pk else 'none', cs), ops))
     return segs
 
+def exhaustive_ok():
+    """C16: every kind of handler (RETURN on int / string-returning / no-parameter / three-parameter functions, void without handler,
+    THROW on value and on void functions, throwing side effect) x bounds: accepted calls before and after a reporter swap each give
+    exactly one OK report to the reporter then installed, the call beyond the upper bound gives none"""
+    segs = []
+    kinds = [(2, '1 0 0'), (15, '1 0 0'), (16, '1 0 0'), (50, '4 0 0'), (55, '4 0 0'), (51, '4 0 0'), (130, '5 0 0'), (134, '5 0 0'),
+             (135, '6 0 0'), (142, '7 0 0'), (144, '7 0 0'), (30, '2 0 0'), (40, '3 0 0')]
+    for (sh, call) in kinds:
+        for (lo, hi) in ((1, 2), (2, 2), (0, INF)):
+            for se in ((0, 0, 0), (1, 0, 0)):
+                ops = ['mock 0', expect_line(1, sh, 0, p=((0, 0), (0, 0)), w=((0, 0),) * 3, se=se, retv=100, lo=lo, hi=hi),
+                       'call 0 %s' % call, 'setrep 2 1', 'call 0 %s' % call, 'call 0 %s' % call, 'setrep 1 1', 'release 1']
+                segs.append(('xok-%d-%d-%d-%d' % (sh, lo, hi, se[0]), ops))
+    return segs
+
 EXHAUSTIVE.update({'C07': [exhaustive_forbid, exhaustive_forbid_seq], 'C08': [exhaustive_clauses], 'C13': [exhaustive_monitors, exhaustive_seqmonitors], 'C14': [exhaustive_monitors, exhaustive_seqdeath],
-                   'C15': [exhaustive_reports, exhaustive_forbid, exhaustive_seqmonitors], 'C16': [exhaustive_reports], 'C17': [exhaustive_tracers]})
+                   'C15': [exhaustive_reports, exhaustive_forbid, exhaustive_seqmonitors], 'C16': [exhaustive_reports, exhaustive_ok], 'C17': [exhaustive_tracers]})
